@@ -915,7 +915,7 @@ def enc_svcb_params(params):
 
 SVCB_TEXTS = ["1 . alpn=h2", '1 . alpn="h2,h3"', "1 . alpn=h2,h3 port=443", '1 . ALPN="h2"', "1 . Alpn=h2 no-default-alpn", "1 . no_default_alpn alpn=h2",
               "1 . no-default-alpn", "1 . no-default-alpn=", '1 . no-default-alpn=""', "1 . no-default-alpn=x alpn=h2", "1 . alpn", "1 . alpn=", '1 . alpn=""',
-              '1 . alpn= "h2"', "1 . =h2", "1 . alpn=h2 alpn=h3", "1 . port=53", 'l . port="53"', "1 . port=65536", "1 . port=-1", "1 . port=+53", "1 . port", "1 . port=",
+              '1 . alpn= "h2"', "1 . =h2", '1 . ="', '1 . =" x"', '1 . ="x"', '1 . port="1" ="', "1 . =", "1 . alpn=h2 alpn=h3", "1 . port=53", 'l . port="53"', "1 . port=65536", "1 . port=-1", "1 . port=+53", "1 . port", "1 . port=",
               "0 . alpn=h2", "0 .", "0 . ", "0 foo.example.", "16 foo.example. mandatory=alpn,port alpn=h2 port=53", "1 . mandatory=alpn", "1 . mandatory=mandatory alpn=h2",
               "1 . mandatory=alpn,alpn alpn=h2", "1 . mandatory=port,alpn alpn=h2 port=1", "1 . mandatory=key7 key7=x", "1 . mandatory= alpn=h2", "1 . mandatory",
               "1 . ipv4hint=1.2.3.4,5.6.7.8", "1 . ipv4hint=1.2.3.4, ", "1 . ipv4hint=1.2.3", "1 . ipv4hint=", "1 . ipv6hint=::1,2001:db8::1", '1 . ipv6hint="::ffff:1.2.3.4"',
@@ -1099,6 +1099,8 @@ def in_model(kind, case):
         return False  # str.isdigit() / int() of non-ASCII text
     if case[0] == 45:
         return svcb_in_model(dec(case[2]))
+    if case[0] in (8, 9) and any(c > 127 for c in (case[1] if isinstance(case[1], (bytes, list)) else b"")):
+        return False  # int() / isdecimal() / strip() of non-ASCII text (NEL, NBSP are white space, other Nd digits)
     if case[0] == 57 and any(c > 127 for c in (case[1] if isinstance(case[1], (bytes, list)) else b"")):
         return False  # str.upper() / isdecimal() of non-ASCII text
     if case[0] == 41 and case[1] == 29 and not loc_in_model(dec(case[2])):
